@@ -282,6 +282,10 @@ class Ob:
         """turn a sat model into a replayed violation (or an unreproduced candidate)"""
         inputs = inputs or {}
         tried = []
+        if len(self.r.violations) >= 3:
+            # enough reproduced counterexamples for this obligation: further sat answers are counted, not replayed
+            self.r.meta["further_sat_not_replayed"] = self.r.meta.get("further_sat_not_replayed", 0) + 1
+            return
         for attempt in range(3):
             if attempt == 0:
                 m = nice_model(cons, list(inputs.values())) or model
